@@ -137,8 +137,10 @@ class PulseCoupledOscillator(Process):
         if id is not None:
             self.unpostEvent(id, fatal=False)
 
-        # add a new firing event
-        g.nodes[n][self.NODE_EVENT_ID] = self.postEvent(round(et, self.PHASE_PRECISION), n, self.fired, name=self.FIRED)
+        # add a new firing event (the time isn't rounded: phases are quantised by
+        # normalisePhase(), and rounding times to the same number of places moves a
+        # firing by a whole phase quantum or more when the period is small)
+        g.nodes[n][self.NODE_EVENT_ID] = self.postEvent(et, n, self.fired, name=self.FIRED)
 
 
     def getPhase(self, t: float, n: Node, normalise: bool = False) -> float:
